@@ -1,3 +1,10 @@
+// NOT REGISTERED (moved out of contracts/kani/core/c01_reassembler_modular.rs by w-c16): the modular WRITE-path harnesses
+// vq_c01_reassembler_write_k{0,1,2} did not finish (see the RECORD below).  This file is the complete modular harness file
+// as it was when the attempts were made; to re-run, copy it to contracts/kani/core/ (it is self-contained and injected
+// into quic/s2n-quic-core/src/buffer/reassembler/slot.rs) and run
+//   bin/check C01 --tier thorough --only vq_c01_reassembler_write_k0
+// The read side (pop / skip / observers), allocate_slot and all Slot contracts ARE registered and discharged.
+//
 //@ inject crate=core src=quic/s2n-quic-core/src/buffer/reassembler/slot.rs
 // MODULAR contract harnesses for `Reassembler` (properties C16 and C01, receiver side).
 //
@@ -22,8 +29,7 @@
 // of `slot` also sees the private items of its ancestor `reassembler`.
 //
 // ---- RECORD: the write path (write_at / write_at_fin) is NOT discharged ------------------------------------------------
-// Harnesses vq_c01_reassembler_write_k{0,1,2} (now in probes/kani_c01_reassembler_write_modular.rs, NOT registered)
-// state the contract; none of them finished.  What was tried
+// Harnesses vq_c01_reassembler_write_k{0,1,2} below state the contract; none of them finished.  What was tried
 // (Kani 0.68 / CBMC 6.11, 12 GB cap, machine shared by 8 jobs, load average 35-50):
 //   1. all Slot methods stubbed, real allocate_slot (real BytesMut::with_capacity(4096..65536)), unwind 8, K=0:
 //      21 min, 3.8 GB, still in symbolic execution (killed).
@@ -51,7 +57,7 @@
 use super::*;
 use crate::buffer::{
     reader::{storage::Chunk, Storage as _},
-    reassembler::{Cursors, Reassembler, UNKNOWN_FINAL_SIZE},
+    reassembler::{request::Request, Cursors, Reassembler, UNKNOWN_FINAL_SIZE},
     Error,
 };
 use alloc::collections::VecDeque;
@@ -62,6 +68,8 @@ mod spec {
 use spec::*;
 
 const MAXV: u64 = crate::varint::MAX_VARINT_VALUE;
+/// maximum payload of the write under test (a write of <= 8 bytes can straddle one allocation-block boundary)
+const L: usize = 8;
 
 // ---- stub-world representation of a slot ---------------------------------------------------------------------------
 const F_BITS: u32 = 20;
@@ -103,6 +111,7 @@ fn any_view() -> SlotV {
 // ---- ghost state ----------------------------------------------------------------------------------------------------
 static mut W_OFF: u64 = 0; // witness stream offset (set once by the harness)
 static mut W_VAL: u8 = 0; // byte buffered for W_OFF (meaningful iff some slot holds W_OFF)
+static mut NEXT_ORG: u64 = 16;
 /// memory of the chunk the pop stub handed out last (the harness reads the chunk's bytes through this alias: the
 /// `Option<BytesMut>` returned by `pop_watermarked` is a merge of several return sites and dereferencing its
 /// pointer field makes CBMC consider every object)
@@ -119,8 +128,85 @@ fn w_val() -> u8 {
 }
 
 // ---- the stubs ---------------------------------------------------------------------------------------------------------
-// (the stubs of the write path -- Slot::new, Slot::try_write_reader, Slot::unsplit, Reassembler::allocate_slot -- live in
-// probes/kani_c01_reassembler_write_modular.rs together with the write harnesses that did not finish)
+fn st_new(start: u64, end: u64, data: BytesMut) -> Slot {
+    // requires (Slot::invariants() on the fresh slot): empty buffer whose capacity is the allocated range, <= 2^16
+    assert!(
+        start <= end && data.is_empty() && data.capacity() as u64 == end - start && end - start <= 1 << 16,
+        "C01/reassembler.calls.slot_new/pre_capacity_matches_range"
+    );
+    let org = unsafe {
+        NEXT_ORG += 1;
+        NEXT_ORG
+    };
+    mk_slot(SlotV { start: start as i128, len: 0, end_alloc: end as i128 }, org)
+}
+
+/// `Reassembler::allocate_slot` replaced by its contract (asserted on the real function by
+/// vq_c16_reassembler_allocate_slot): keeps the real 4096..65536-byte `BytesMut::with_capacity` out of the harness
+fn st_allocate_slot<R>(r: &mut Reassembler, reader: &R) -> Slot
+where
+    R: Reader + ?Sized,
+{
+    let c = cur(r);
+    let off = reader.current_offset().as_u64() as i128;
+    let len = reader.buffered_len() as i128;
+    assert!(alloc_slot_pre(c, off, len), "C01/reassembler.calls.allocate_slot/pre_reader_nonempty_above_read_cursor_within_final_size");
+    let v = any_view();
+    kani::assume(alloc_slot_post(c, off, len, blk(off), asz(off), v));
+    let org = unsafe {
+        NEXT_ORG += 1;
+        NEXT_ORG
+    };
+    mk_slot(v, org)
+}
+
+fn st_try_write_reader<R>(s: &mut Slot, reader: &mut R, filled_slot: &mut bool) -> Result<Option<Slot>, R::Error>
+where
+    R: Reader + ?Sized,
+{
+    let old = gview(s);
+    let r = ReqV { off: reader.current_offset().as_u64() as i128, len: reader.buffered_len() as i128 };
+    assert!(slot_write_pre(old, r), "C01/reassembler.calls.try_write_reader/pre_slot_start_le_reader_offset");
+    let t = slot_write_trimmed(old, r);
+    let n = slot_write_count(old, r);
+    // effect on the reader (slot_write_reader): trimmed to t.off, then the n stored bytes are taken from it
+    let target = if slot_is_full(old) { old.end_alloc } else { slot_end(old) };
+    reader.skip_until(unsafe { VarInt::new_unchecked(target as u64) })?;
+    if n > 0 {
+        let chunk = reader.read_chunk(n as usize)?;
+        // content contract of the slot: the bytes stored at [t.off, t.off+n) are the request's bytes
+        let w = w_off() as i128;
+        if t.off <= w && w < t.off + n {
+            unsafe { W_VAL = chunk[(w - t.off) as usize] };
+        }
+    }
+    // effect on the slot(s): havoc + assume the predicates
+    let new = any_view();
+    kani::assume(slot_write_self(old, r, new));
+    let flag: bool = kani::any();
+    kani::assume(slot_write_flag(old, r, *filled_slot, flag));
+    *filled_slot = flag;
+    set_view(s, new);
+    if slot_write_splits(old, r) {
+        let f = any_view();
+        kani::assume(slot_write_filled(old, r, f));
+        Ok(Some(mk_slot(f, g_org(s)))) // same allocation: BytesMut::split_off
+    } else {
+        Ok(None)
+    }
+}
+
+fn st_unsplit(s: &mut Slot, next: Slot) {
+    let (a, b) = (gview(s), gview(&next));
+    // requires: the integer assume!s of Slot::unsplit ...
+    assert!(slot_unsplit_pre(a, b), "C01/reassembler.calls.unsplit/pre_full_adjacent_nonempty");
+    // ... and the pointer one (`self.data.as_ptr().add(len) == next.data.as_ptr()`): same allocation + adjacent offsets
+    assert!(g_org(s) == g_org(&next), "C01/reassembler.calls.unsplit/pre_same_allocation");
+    let new = any_view();
+    kani::assume(slot_unsplit_post(a, b, new));
+    set_view(s, new);
+}
+
 fn st_skip(s: &mut Slot, len: u64) {
     let old = gview(s);
     let t = old.start + len as i128;
@@ -370,6 +456,19 @@ fn same_slots(a: &Snap, b: &Snap) -> bool {
 /// lists only the methods its operation can reach; a method that is reached without a stub would run the real code on
 /// the packed representation and fail its own `invariants()`)
 macro_rules! modular {
+    (write unwind($u:literal) fn $name:ident() $body:block) => {
+        #[kani::proof]
+        #[kani::unwind($u)]
+        #[kani::stub(crate::buffer::reassembler::Reassembler::allocate_slot, st_allocate_slot)]
+        #[kani::stub(crate::buffer::reassembler::Reassembler::invariants, st_invariants)]
+        #[kani::stub(crate::buffer::reassembler::slot::Slot::try_write_reader, st_try_write_reader)]
+        #[kani::stub(crate::buffer::reassembler::slot::Slot::unsplit, st_unsplit)]
+        #[kani::stub(crate::buffer::reassembler::slot::Slot::end, st_end)]
+        #[kani::stub(crate::buffer::reassembler::slot::Slot::end_allocated, st_end_allocated)]
+        #[kani::stub(crate::buffer::reassembler::slot::Slot::is_empty, st_is_empty)]
+        #[kani::stub(crate::buffer::reassembler::slot::Slot::as_slice, st_as_slice)]
+        fn $name() $body
+    };
     (read unwind($u:literal) fn $name:ident() $body:block) => {
         #[kani::proof]
         #[kani::unwind($u)]
@@ -404,6 +503,109 @@ macro_rules! modular {
         #[kani::stub(<crate::buffer::reassembler::slot::Slot as crate::buffer::reader::Storage>::buffered_len, st_buffered_len)]
         fn $name() $body
     };
+}
+
+// ---- write_at / write_at_fin -------------------------------------------------------------------------------------------------
+//@ harness props=C16,C01 tier=thorough level=bounded bound="K=0 stored slots before the write, payload L<=8 bytes; Slot methods replaced by contract stubs" timeout=1800 mem=12
+//@ fn Reassembler::write_at
+//@ fn Reassembler::write_at_fin
+//@ fn Reassembler::write_reader
+//@ fn Reassembler::write_reader_impl
+//@ fn Reassembler::write_reader_at
+//@ fn Reassembler::write_reader_with_alloc
+//@ fn Reassembler::allocate_slot
+//@ fn Reassembler::unsplit_range
+modular! { write unwind(5)
+fn vq_c01_reassembler_write_k0() {
+    write_step(0);
+}
+}
+
+fn write_step(n: usize) {
+    let w: u64 = kani::any();
+    let v0: u8 = kani::any();
+    unsafe {
+        W_OFF = w;
+        W_VAL = v0;
+    }
+    let mut r = any_reassembler(n);
+    let c0 = cur(&r);
+    let s0 = snap(&r);
+    let had = has(&s0, w);
+
+    let data: [u8; L] = kani::any();
+    let len: usize = kani::any();
+    let off: u64 = kani::any();
+    let fin: bool = kani::any();
+    kani::assume(len <= L && off <= MAXV);
+    let o = VarInt::new(off).unwrap();
+    let res = if fin { r.write_at_fin(o, &data[..len]) } else { r.write_at(o, &data[..len]) };
+
+    let (oi, li) = (off as i128, len as i128);
+    let out_of_range = write_out_of_range(oi, li);
+    let contradicts = write_contradicts_fin(c0, oi, li, fin);
+    // rejected exactly when the write exceeds 2^62-1 or contradicts the (known or announced) final size
+    assert!(res.is_err() == (out_of_range || contradicts), "C01/reassembler.write/err_iff_out_of_range_or_final_size_contradiction");
+    let c1 = cur(&r);
+    let s1 = snap(&r);
+    match res {
+        Err(e) => {
+            assert!(
+                e == if out_of_range { Error::OutOfRange } else { Error::InvalidFin },
+                "C01/reassembler.write/error_code"
+            );
+            // (recv, start, final, max_recv) unchanged
+            assert!(c1.start == c0.start && c1.max_recv == c0.max_recv && c1.fin == c0.fin, "C01/reassembler.write/err_leaves_cursors");
+            assert!(same_slots(&s0, &s1) && w_val() == v0, "C01/reassembler.write/err_leaves_contents");
+        }
+        Ok(()) => {
+            assert!(write_cursors_post(c0, oi, li, fin, c1), "C01/reassembler.write/cursors");
+            let wi = w as i128;
+            let written = oi <= wi && wi < oi + li && wi >= c0.start;
+            let now = has(&s1, w);
+            // recv' = recv  U  { off+i -> data[i] } restricted to >= start
+            assert!(now == (had || written), "C01/reassembler.write/recv_domain_is_union");
+            if had {
+                assert!(w_val() == v0, "C01/reassembler.write/buffered_bytes_never_overwritten");
+            } else if now {
+                assert!(w_val() == data[(w - off) as usize], "C01/reassembler.write/new_bytes_are_the_frame_bytes");
+            }
+            assert_rep_inv(c1, &s1);
+        }
+    }
+    kani::cover!(res.is_ok() && !had && has(&s1, w), "reach:witness_newly_written");
+    kani::cover!(res.is_ok() && had && oi <= w as i128 && (w as i128) < oi + li, "reach:duplicate_byte_kept");
+    kani::cover!(res.is_ok() && s1.n > n, "reach:slot_added");
+    kani::cover!(res.is_ok() && len > 0 && oi + li <= c0.start, "reach:write_entirely_below_read_cursor");
+    kani::cover!(res.is_ok() && fin, "reach:fin_accepted");
+    kani::cover!(res == Err(Error::InvalidFin), "reach:invalid_fin");
+    kani::cover!(res == Err(Error::OutOfRange), "reach:out_of_range");
+    kani::cover!(res.is_ok() && len > 0 && blk(oi) != blk(oi + li - 1), "reach:write_straddles_block_boundary");
+    end_of_harness(r);
+}
+
+
+//@ harness props=C16,C01 tier=thorough level=bounded bound="K=1 stored slot before the write, payload L<=8 bytes; Slot methods replaced by contract stubs" timeout=2400 mem=12
+//@ fn Reassembler::write_at
+//@ fn Reassembler::write_at_fin
+//@ fn Reassembler::write_reader_at
+//@ fn Reassembler::unsplit_range
+modular! { write unwind(6)
+fn vq_c01_reassembler_write_k1() {
+    write_step(1);
+}
+}
+
+//@ harness props=C16,C01 tier=thorough level=bounded bound="K=2 stored slots before the write, payload L<=8 bytes; Slot methods replaced by contract stubs" timeout=3000 mem=12
+//@ fn Reassembler::write_at
+//@ fn Reassembler::write_at_fin
+//@ fn Reassembler::write_reader_at
+//@ fn Reassembler::write_reader_with_alloc
+//@ fn Reassembler::unsplit_range
+modular! { write unwind(7)
+fn vq_c01_reassembler_write_k2() {
+    write_step(2);
+}
 }
 
 // ---- pop / pop_watermarked ---------------------------------------------------------------------------------------------------
